@@ -3,13 +3,13 @@ From NDV Require Import M_Wrappers M_Crop C14_corr.
 Open Scope Z_scope.
 
 Inductive out := OItem (its : list item) | OErr (e : err).
-Record case := mk { e : C14_corr.wexpr; n : nat; points : list (list (option Q)); keepdims : bool; impl : out }.
+Record case := mk { e : C14_corr.wexpr; shape : list Z; points : list (list (option Q)); keepdims : bool; impl : out }.
 
 Definition agree (c : case) : bool :=
   match C14_corr.build (e c) with
   | Err _ => false
   | Ok W =>
-      match crop_by_values_item W (n c) (points c) (keepdims c), impl c with
+      match crop_by_values_item W (shape c) (points c) (keepdims c), impl c with
       | Ok its, OItem its' => list_eqb item_eqb its its'
       | Err _, OErr _ => true
       | _, _ => false
